@@ -97,9 +97,9 @@ def fmt_slots(kind: str, tier: str):
         return [hs, mins, ss, fs, offs]
     if kind == "dateTime":
         if q:
-            return [[-45, 0, 2000, 2020, 12020], [1, 2, 12], [1, 29, 31], [0, 23, 24], [0, 59], [0, 59], [0, 1, 123000000], [NO_OFFSET, 0, -30, 841]]
+            return [[-45, 0, 2000, 2020, 12020], [1, 2, 12], [1, 29, 31], [0, 23, 24], [0, 59], [0, 59], [0, 1, 1500, 123000000, 999999500, 999999999], [NO_OFFSET, 0, -30, 841]]
         return [[-45, 0, 1, 1900, 2000, 2020, 12020], [1, 2, 4, 12, 13], [0, 1, 28, 29, 30, 31], [0, 23, 24], [0, 59, 60], [0, 59],
-                [0, 1, 1000, 123456789, 999999999], [NO_OFFSET, 0, -30, 59, 330, -840, 841]]
+                [0, 1, 1000, 1500, 123456789, 999999499, 999999500, 999999999], [NO_OFFSET, 0, -30, 59, 330, -840, 841]]
     raise ValueError(kind)
 
 
